@@ -725,7 +725,9 @@ func (l *List) CombineN(sta funcGen.Stack[Value]) (*List, error) {
 		}
 		return NewListFromIterable(func(st funcGen.Stack[Value]) iterator.Producer[Value] {
 			return iterator.CombineN[Value, Value](l.iterable(st), int(n), func(i0 int, i []Value) (Value, error) {
-				st.Push(NewList(i...))
+				// The slice i is reused and modified by the iterator.
+				// A list must never change, so a copy is required.
+				st.Push(NewList(append([]Value(nil), i...)...))
 				return f.Func(st.CreateFrame(1), nil)
 			})
 		}), nil
